@@ -1,9 +1,10 @@
 """Source of MANIFEST.json (run tools/mkmanifest.py after editing)."""
 HOOKS = {
     "guard": "ASMJIT_VERIF",
-    "enable": "checks compile /repo's working tree themselves (g++ -std=c++17 -O1 -DNDEBUG -DASMJIT_STATIC -DASMJIT_VERIF -I/repo); no hook is committed in /repo yet",
-    "baseline_off_cmd": "cmake -G Ninja -S /repo -B /repo/_build -DASMJIT_TEST=ON && cmake --build /repo/_build && ctest --test-dir /repo/_build -j8 --timeout 900",
-    "source_commits": [],
+    "enable": "checks compile /repo's working tree themselves (tools/vlib.py: g++ -std=c++17 -O1 -DNDEBUG -DASMJIT_STATIC -DASMJIT_VERIF -I/repo, static archive per sanitizer variant); "
+              "the only hook is H1 (arena fault point, weak symbol asmjit_verif_fault) used by C15",
+    "baseline_off_cmd": "cmake -G Ninja -S /repo -B /repo/_build -DASMJIT_TEST=ON -DCMAKE_BUILD_TYPE=RelWithDebInfo && cmake --build /repo/_build && ctest --test-dir /repo/_build -j8 --timeout 900",
+    "source_commits": ["a9874c0"],
     "add_only": True,
 }
 NOTES = ("Single entry point ./check <Cxx> --tier quick|thorough [--replay f]. Every check rebuilds /repo's working tree, "
